@@ -111,6 +111,7 @@ META.update({
         note=_GW_NOTE + " 'Never' is observed as 'not within the bound plus 3 K + 2 s'.", technique="PBT with a time-enforcing model broker on a virtual clock; bounded-liveness oracle"),
 })
 CHECKS["C06"] = dict(parts=[part("gateway-exchanges-independent", "gw", "TestC06GW", 3000, 200_000),
+                            part("gateway-message-id-reused", "gw", "TestC06Reuse", 2000, 150_000),
                             part("client-exchanges-independent", "cl", "TestC06Client", 3000, 200_000)])
 CHECKS["C15"] = dict(parts=[part("sessions-isolated", "gw", "TestC15", 1500, 100_000),
                             part("listen-and-serve-isolated", "gw", "TestC15Net", 160, 6000, qshards=4, tshards=12, death_is_violation=True, death_kind="gateway-process-died/listen-and-serve")])
